@@ -208,6 +208,9 @@ fn main() {
             ("protocol-2.0", 443, me.clone(), content.clone(), set("mls_protocol_version", &[*r.pick(&["2.0", "1", "1.00", " 1.0", ""])]), Some("a wrong protocol version tag")),
             ("protocol-first-wrong", 443, me.clone(), content.clone(), first(vec!["mls_protocol_version", "2.0"]), Some("a wrong protocol version tag")),
             ("ciphersuite-0x0002", 443, me.clone(), content.clone(), set("mls_ciphersuite", &[*r.pick(&["0x0002", "0x001", "0001", "0x00001", "1"])]), Some("a wrong ciphersuite tag")),
+            // six BYTES but not six ASCII characters: a multi-byte character straddling the "0x" prefix (byte offset 2) or elsewhere
+            ("ciphersuite-non-ascii", 443, me.clone(), content.clone(), set("mls_ciphersuite", &[*r.pick(&["0\u{e9}001", "\u{20ac}001", "0\u{20ac}01", "\u{1f600}01", "0x0\u{e9}1"])]), Some("a wrong ciphersuite tag")),
+            ("extensions-non-ascii", 443, me.clone(), content.clone(), set("mls_extensions", &["0x000a", *r.pick(&["0\u{e9}001", "\u{20ac}001", "0\u{20ac}01", "\u{1f600}01"]), "0xf2ee", "0x0003"]), Some("an extensions tag without the required ids")),
             ("ciphersuite-uppercase", 443, me.clone(), content.clone(), set("mls_ciphersuite", &["0X0001"]), None),
             ("extensions-missing-id", 443, me.clone(), content.clone(), set("mls_extensions", &[*r.pick(&["0x000a", "0xf2ee", "0x0003"])]), Some("an extensions tag without the required ids")),
             ("extensions-uppercase", 443, me.clone(), content.clone(), set("mls_extensions", &["0x000A", "0xF2EE", "0x0003"]), None),
